@@ -56,6 +56,8 @@ def write_ops(counts=False):
                   AX, MASK, st.booleans(), st.sampled_from(["ids", "pred"])),
         st.builds(lambda a, ip: {"op": "scale", "axis": a, "inplace": ip},
                   AX, st.booleans()),
+        st.builds(lambda a, ip: {"op": "zero_max", "axis": a, "inplace": ip},
+                  AX, st.booleans()),
         st.builds(lambda a, s: {"op": "rename", "axis": a, "suffix": s}, AX,
                   st.sampled_from(["_r", "-renamed-longer", "x"])),
         st.just({"op": "transpose"}),
@@ -173,6 +175,12 @@ def apply_op(t, op):
         def f(v, i, md):
             return v * 2
         return t.transform(f, axis=op["axis"], inplace=op["inplace"])
+    if name == "zero_max":
+        # a transform that zeroes some entries (the kernel writes zeros into
+        # the stored data; the table must not keep them as entries)
+        def g(v, i, md):
+            return np.where(v == v.max(), 0.0, v) if v.size > 1 else v
+        return t.transform(g, axis=op["axis"], inplace=op["inplace"])
     if name == "rename":
         ids = list(t.ids(axis=op["axis"]))
         return t.update_ids({i: i + op["suffix"] for i in ids},
